@@ -113,6 +113,11 @@ func runJob(j job) ExecResult {
 	}
 	r.Sigs = x.sigs[start:]
 	r.Fails = x.Fails
+	if x.EndWhy == "quiescent" && len(x.threads) > 0 && x.threads[0].st == tsParked && x.threads[0].op.kind != OpFault {
+		// the scenario body itself is parked and nothing can happen any more (no enabled thread, no timer): whatever
+		// oracle follows in the body would never be evaluated — that must not pass silently
+		r.Fails = append(r.Fails, fmt.Sprintf("the scenario did not run to its end: the system went quiet for good while its main thread waits in %s", x.threads[0].Pending()))
+	}
 	r.Races = x.Races
 	for _, t := range x.Panics() {
 		r.Panics = append(r.Panics, fmt.Sprintf("T%d(%s): %v\n%s", t.ID, t.Name, t.Panic, trimStack(t.PanicSt)))
